@@ -224,6 +224,7 @@ func correspondence(c *hx.Ctx) {
 		c.Impl(id, fmt.Sprintf("bs=%d", bs), fmt.Sprintf("inodes=%d", d+f+l+1), fmt.Sprintf("used=%d", sb.bytesUsed), "v="+strings.Join(vs, ";"))
 		c.Stat("corr.leanreader")
 		c.Distinct("image|" + cf.String() + "|" + root.describe())
+		imgRdCases(c, id, cf, b.dev, b.size, sb, p, rr) // reading side over image bytes (imgrd.go)
 	}
 	codecCases(c, r.Fork()) // inode and directory-table codecs against the real encoders / decoders
 	// ---- inode reference arithmetic -------------------------------------------------------------------
